@@ -650,3 +650,100 @@ func TestC07HookGate(t *testing.T) {
 		}
 	})
 }
+
+// dialHook is the dialling-side counterpart of the accept hook.
+type dialHook struct {
+	reject bool
+	setID  string
+}
+
+func (h *dialHook) Name() string { return "c07dial" }
+func (h *dialHook) PostDial(s erpc.PreSession, isRedial bool) *erpc.Status {
+	if h.setID != "" {
+		s.SetID(h.setID)
+	}
+	if h.reject {
+		return erpc.NewStatus(403, "rejected by dial hook", "c07")
+	}
+	return nil
+}
+
+// TestC07DialHook: the dialling side of "a session is listed and healthy only after its
+// hooks succeed": Dial over loopback TCP with a dial hook that optionally assigns an id
+// and accepts or rejects.
+func TestC07DialHook(t *testing.T) {
+	rec := vt.NewRec(t, "C07", "dial-hook", "Dial over loopback TCP with a dial hook that optionally calls SetID (fresh id or the id of a live session of the dialling peer) and accepts or rejects; oracle: after a rejected dial no session is returned, the dialling peer's index lists exactly the sessions that were established before (minus one whose id was taken over), none of them unhealthy; after an accepted dial the session is listed under the assigned id and serves a call; non-trivial = reject or SetID; distinct by case")
+	rapid.Check(t, func(t *rapid.T) {
+		vt.Init()
+		newLib()
+		reject := rapid.Bool().Draw(t, "reject")
+		idMode := rapid.SampledFrom([]string{"none", "fresh", "collide"}).Draw(t, "idmode")
+		rec.Case(fmt.Sprintf("%v|%s", reject, idMode), reject || idMode != "none", fmt.Sprintf("reject=%v", reject), "id="+idMode)
+		if rec.WantSample() {
+			rec.Sample(map[string]interface{}{"reject": reject, "hook_setid": idMode})
+		}
+		w := vt.NewWorld()
+		defer w.Close()
+		srv := w.Peer(erpc.PeerConfig{})
+		route, _ := registerLib(srv)
+		ts := &tcpServer{peer: srv}
+		if err := ts.listen(); err != nil {
+			t.Skip("no loopback listener")
+		}
+		defer ts.down()
+		hook := &dialHook{}
+		cli := w.Peer(erpc.PeerConfig{DialTimeout: 2 * time.Second}, hook)
+		// an established session first
+		first, st := cli.Dial(ts.addr)
+		if !st.OK() {
+			t.Fatalf("first dial failed: %v", st)
+		}
+		first.SetID("existing")
+		hook.reject = reject
+		switch idMode {
+		case "fresh":
+			hook.setID = "fresh-id"
+		case "collide":
+			hook.setID = "existing"
+		}
+		sess, st := cli.Dial(ts.addr)
+		hook.reject, hook.setID = false, ""
+		wantLive := map[string]bool{"existing": true}
+		if idMode == "collide" {
+			// the id was taken over inside the hook: the older session is closed either way
+			if !vt.WaitClosed(first.CloseNotify()) {
+				t.Fatalf("%s", vt.Hang("close of the session whose id was taken over by a dial hook"))
+			}
+			delete(wantLive, "existing")
+		}
+		if reject {
+			if sess != nil || st.OK() {
+				t.Fatalf("C07 violated: a dial rejected by its hook returned a session")
+			}
+		} else {
+			if sess == nil {
+				t.Fatalf("accepted dial failed: %v", st)
+			}
+			wantLive[sess.ID()] = true
+			if idMode != "none" && sess.ID() != map[string]string{"fresh": "fresh-id", "collide": "existing"}[idMode] {
+				t.Fatalf("C07 violated: session id %q after the hook assigned one", sess.ID())
+			}
+			res := new(LibRes)
+			if cmd := sess.Call(route, &LibArg{Rid: "d", Act: "ret", Val: "v"}, res); !cmd.StatusOK() || res.Val != "v" {
+				t.Fatalf("C07 violated: a call on the dialled session failed: %v", cmd.Status())
+			}
+		}
+		vt.WaitUntilFor(2*time.Second, func() bool { return cli.CountSession() == len(wantLive) })
+		got := map[string]bool{}
+		cli.RangeSession(func(s erpc.Session) bool {
+			got[s.ID()] = true
+			if !s.Health() {
+				t.Fatalf("C07 violated: the dialling peer lists session %q which is not healthy (dial hook reject=%v, hook SetID=%s)", s.ID(), reject, idMode)
+			}
+			return true
+		})
+		if fmt.Sprint(got) != fmt.Sprint(wantLive) {
+			t.Fatalf("C07 violated: after a dial (hook reject=%v, hook SetID=%s) the dialling peer lists %v, live sessions are %v", reject, idMode, got, wantLive)
+		}
+	})
+}
